@@ -54,6 +54,10 @@ def gen_project(rng):
         # a second cached search whose filter is a function defined in build.bfg (not
         # serialisable into .bfg_find_cache) next to the serialisable ones
         'custfilter': rng.random() < 0.4,
+        # the header directory is installed (so the files found in it are in the build file)
+        # and possibly kept out of the source distribution
+        'hdrinst': rng.random() < 0.6,
+        'hdrnodist': rng.random() < 0.4,
     }
     files = {}
     for i in range(rng.randint(1, 3)):
@@ -87,7 +91,10 @@ def initial_bfg(feats, extra_lines=()):
     L.append("srcs = find_files(%s%s)" % (pat, kw))
     inc = ''
     if feats['hdrdir']:
-        L.append("hdrs = header_directory('include', include='**/*.h')")
+        L.append("hdrs = header_directory('include', include='**/*.h'%s)"
+                 % (', dist=False' if feats.get('hdrnodist') else ''))
+        if feats.get('hdrinst'):
+            L.append("install(hdrs)")
         inc = ', includes=[hdrs]'
     L.append("prog = executable('prog', files=srcs%s)" % inc)
     L.append("data = find_files('data/*.txt')")
@@ -133,6 +140,9 @@ def gen_history(rng, project, n):
     # every history has one edit that leaves the generated files byte-identical (an input of
     # the regeneration rule gets a newer mtime, nothing else): regeneration must still converge
     hist.insert(rng.randrange(len(hist) + 1), 'touch-input')
+    if feats['hdrdir'] and feats.get('hdrinst'):
+        # the files a header_directory(include=) finds are in the install rules
+        hist.insert(rng.randrange(len(hist) + 1), 'add-header')
     if feats.get('custfilter'):
         hist[rng.randrange(len(hist))] = 'add-plugin'
         hist.insert(rng.randrange(len(hist) + 1), rng.choice(['remove-plugin', 'add-plugin',
@@ -390,14 +400,16 @@ class Live:
             return kind, '', True, False
         if kind == 'add-header' and feats['hdrdir']:
             self.write('include/h%d.h' % k, '#define H%d\n' % k)
-            return kind, 'include/h%d.h' % k, False, True
+            inst = bool(feats.get('hdrinst'))
+            return kind, 'include/h%d.h' % k, inst, not inst
         if kind == 'remove-header' and feats['hdrdir']:
             hs = sorted(f for f in os.listdir(os.path.join(self.src, 'include'))
                         if f.endswith('.h'))
             if hs:
                 victim = rng.choice(hs)
                 os.remove(os.path.join(self.src, 'include', victim))
-                return kind, 'include/' + victim, False, True
+                inst = bool(feats.get('hdrinst'))
+                return kind, 'include/' + victim, inst, not inst
             return None, '', False, False
         if kind == 'add-plugin' and feats.get('custfilter'):
             self.write('plugins/p%d.c' % k, 'int p%d;\n' % k)
